@@ -410,6 +410,42 @@ def run_sched(case):
             wantl = None
     except (NoConvergence, OverflowError):
         wantl = None
+    # ... and over MaxPlus (zero = -inf as well) and MaxTimes, with exact scores
+    from genlm.grammar.semiring import MaxPlus, MaxTimes
+
+    for RR, mk_w, wname in ((MaxPlus, lambda i: MaxPlus(Fraction(-(i % 4) - 1, 2)), "MaxPlus"), (MaxTimes, lambda i: MaxTimes(FRACW[i % len(FRACW)]), "MaxTimes")):
+        ww = [mk_w(i) for i in range(len(rules))]
+        try:
+            wantm = ref_totals([(w, h, b) for w, (h, b) in zip(ww, rules)], V, RR, maxit=200)
+        except (NoConvergence, OverflowError):
+            continue
+
+        class SR:  # the shipped semiring with a scheduler-controlled chart
+            zero = RR.zero
+            one = RR.one
+
+            @staticmethod
+            def metric(a, b):
+                return a.metric(b)
+
+            @classmethod
+            def chart(cls, *a, **k):
+                return SchedChart(cls, *a, **k)
+
+        def run_m():
+            g = gram.build(rules, SR, ww, V=V)
+            r = _call(lambda: g.agenda(maxiter=2000))
+            if isinstance(r, str):
+                return r
+            bad = [(X, repr(r[X])) for X in NT if r[X] != wantm.get(X, RR.zero)]
+            return "ok" if not bad else repr(bad)
+
+        resm = es.explore(run_m, p["sched_bound"], max_exec=400)
+        extra_exec += resm["executions"]
+        badm = [(o, pf) for o, pf in resm["outcomes"].items() if o != "ok"]
+        if badm:
+            o, pf = badm[0]
+            fails.append(_fail(f"{wname} agenda result independent of pop order", dict(inp0, schedule=pf[0]), o, wantm))
     if wantl is not None:
 
         def run_log():
@@ -427,7 +463,7 @@ def run_sched(case):
             return "ok" if not bad else repr(bad)
 
         resl = es.explore(run_log, p["sched_bound"], max_exec=600)
-        extra_exec = resl["executions"]
+        extra_exec += resl["executions"]
         badl = [(o, pf) for o, pf in resl["outcomes"].items() if o != "ok"]
         if badl:
             o, pf = badl[0]
